@@ -7,7 +7,7 @@
 
 mod doubles;
 mod refs;
-// mod refctl;
+mod refctl;
 mod refsign;
 mod util;
 
@@ -19,8 +19,8 @@ mod c05;
 mod c06;
 mod c07;
 // mod c08;
-// mod c09;
-// mod c10;
+mod c09;
+mod c10;
 mod c12;
 mod c13;
 mod c14;
@@ -30,7 +30,7 @@ mod c16;
 mod c18;
 mod c19;
 mod c20;
-// mod ctl;
+mod ctl;
 mod vsx;
 
 use std::time::Instant;
@@ -121,9 +121,9 @@ fn main() {
         "C06" => c06::run(&ctx),
         "C07" => c07::run(&ctx),
         // "C08" => c08::run(&ctx),
-        // "C09" => c09::run(&ctx),
-        // "C10" => c10::run(&ctx, false),
-        // "C11" => c10::run(&ctx, true),
+        "C09" => c09::run(&ctx),
+        "C10" => c10::run(&ctx, false),
+        "C11" => c10::run(&ctx, true),
         "C12" => c12::run(&ctx),
         "C13" => c13::run(&ctx),
         "C14" => c14::run(&ctx),
